@@ -8,6 +8,7 @@ CONSTANTS
   Forms = {"take", "read", "take_inst", "read_inst"}
   Kinds = {"V", "D"}
   Retransmit = FALSE
+  NoKey = FALSE
   GenK = 60
 CONSTRAINT Bound
 VIEW View
